@@ -253,7 +253,22 @@ pub fn cgr_event(bytes: &[u8], size: u64, res: Option<&Vec<(f64, f64)>>, src: &s
             for (x, y) in pts.iter().skip(nexact) {
                 tops.push(vec![num(top_bits(*x, size, 20)), num(top_bits(*y, size, 20))]);
             }
-            println!("{}", json!({"ev":"cgr","src":src,"s":size,"bytes":bytes,"err":0,"npts":n,"nexact":nexact,"pts":flat,"tops":tops}));
+            // the rule itself, in the arithmetic it is stated in: every point is the midpoint (in double precision) of the
+            // previous point and the corner of its base; recur = number of points for which that is not so
+            let half = size as f64 / 2.0;
+            let mut prev = (half, half);
+            let mut recur = 0usize;
+            for (i, p) in pts.iter().enumerate() {
+                let c = class_of(bytes[i]);
+                let sf = size as f64;
+                let corner = match c { 0 => (0.0, 0.0), 1 => (0.0, sf), 2 => (sf, sf), _ => (sf, 0.0) };
+                let q = ((corner.0 + prev.0) / 2.0, (corner.1 + prev.1) / 2.0);
+                if c > 3 || q.0.to_bits() != p.0.to_bits() || q.1.to_bits() != p.1.to_bits() {
+                    recur += 1;
+                }
+                prev = *p;
+            }
+            println!("{}", json!({"ev":"cgr","src":src,"s":size,"bytes":bytes,"err":0,"npts":n,"nexact":nexact,"pts":flat,"tops":tops,"recur":recur}));
         }
     }
 }
@@ -261,7 +276,16 @@ pub fn cgr_event(bytes: &[u8], size: u64, res: Option<&Vec<(f64, f64)>>, src: &s
 fn gen_cgr_seq(rng: &mut Rng, i: usize, maxlen: usize) -> Vec<u8> {
     if i == 13 && maxlen >= 1000 {
         // one sequence far longer than any plausible internal block size
-        let cls: Vec<u8> = (0..70_000).map(|_| rng.below(4) as u8).collect();
+        // (140 000 bases; around every multiple of 2^16 a stretch of 100-200 bases from two letters only - A/C keep x at
+        // its lower end, A/T keep y there: the point then carries bits of bases far behind it)
+        let mut cls: Vec<u8> = (0..140_000).map(|_| rng.below(4) as u8).collect();
+        for (b, pair) in [(65_536usize, [0u8, 1u8]), (131_072, [0, 3])] {
+            let from = b - 60 - rng.below(60) as usize;
+            let to = b + 40 + rng.below(60) as usize;
+            for x in from..to {
+                cls[x] = pair[rng.below(2) as usize];
+            }
+        }
         return render(&cls, rng, true);
     }
     let len = match i % 9 {
@@ -414,7 +438,7 @@ pub fn decode_ocgr(fasta: &str, out: &str, k: usize, size: u64, norm: bool, src:
 /// trace ocgr <seed> <n> <maxlen> <dir>: OligoCgrComputer::vectorise() for k = 1..7, several sizes, raw and normalised
 pub fn ocgr(seed: u64, n: usize, maxlen: usize, dir: &str) {
     let mut rng = Rng::new(seed);
-    for k in 1..=7usize {
+    for k in 1..=8usize {
         for norm in [true, false] {
             let size = *rng.pick(&[1u64, (k * k) as u64, 16, 1 << 20, 1 << 60, 3 << 50]);      // (size x 2^(k+1) passes 2^64 for the largest)
             // k = 2 raw: a large single batch on many threads
